@@ -32,9 +32,11 @@ pub enum Bin {
     ApplyTo,
     /// `a <> b`: a concatenation value (lists directly under it are spliced when it is walked)
     Concat,
+    /// `f ~ x`: a partial application value; applying it runs `f` with `x <> argument` as input
+    Partial,
 }
 
-pub const BINS: [Bin; 26] = [
+pub const BINS: [Bin; 27] = [
     Bin::Add,
     Bin::Sub,
     Bin::Mul,
@@ -61,6 +63,7 @@ pub const BINS: [Bin; 26] = [
     Bin::Apply,
     Bin::ApplyTo,
     Bin::Concat,
+    Bin::Partial,
 ];
 
 impl Bin {
@@ -92,6 +95,7 @@ impl Bin {
             Bin::Apply => "<~",
             Bin::ApplyTo => "~>",
             Bin::Concat => "<>",
+            Bin::Partial => "~",
         }
     }
     pub fn prio(self) -> usize {
@@ -106,6 +110,7 @@ impl Bin {
             Bin::BOr => 113,
             Bin::Pair => 210,
             Bin::Concat => 240,
+            Bin::Partial => 230,
             Bin::Lt | Bin::Le | Bin::Gt | Bin::Ge => 300,
             Bin::Eq | Bin::Ne => 400,
             Bin::And => 410,
@@ -571,10 +576,21 @@ pub fn rand_expr(r: &mut Rng, depth: usize, cfg: &GenCfg) -> E {
             // nested expression, applied in one of the three ways
             let body = if cfg.allow_seq && r.chance(1, 3) { E::Seq(vec![sub(r), sub(r)], r.chance(1, 2)) } else { sub(r) };
             let f = E::Nested(body.b());
-            match r.below(4) {
+            match r.below(6) {
                 0 => E::Bin(Bin::Apply, f.b(), sub(r).b()),
                 1 => E::Bin(Bin::ApplyTo, sub(r).b(), f.b()),
                 2 => E::Un(Un::EmptyApply, f.b()),
+                3 => {
+                    // partial application (of the expression, or now and then of something that is not one), applied or not
+                    let recv = if r.chance(1, 5) { sub(r) } else { f };
+                    let p = E::Group(E::Bin(Bin::Partial, recv.b(), sub(r).b()).b());
+                    match r.below(4) {
+                        0 => E::Bin(Bin::Apply, p.b(), sub(r).b()),
+                        1 => E::Bin(Bin::ApplyTo, sub(r).b(), p.b()),
+                        2 => E::Un(Un::EmptyApply, p.b()),
+                        _ => p,
+                    }
+                }
                 _ => f,
             }
         }
